@@ -393,8 +393,8 @@ class WFSA:
         )
 
     def accessible(self):
-        stack = list(self.start)
-        visited = set(self.start)
+        stack = [q for q, _ in self.I]  # states with non-zero initial weight
+        visited = set(stack)
         while stack:
             P = stack.pop()
             for _, Q, _ in self.arcs(P):
